@@ -246,6 +246,6 @@ impl CellOccupancyMatrix {
             }
         };
 
-        maybe_index.map(|idx| track_counts.track_to_prev_oz_line(idx as u16))
+        maybe_index.map(|idx| self.track_counts(track_type).track_to_prev_oz_line(idx as u16))
     }
 }
